@@ -2,6 +2,7 @@ package props
 
 import (
 	"astverif/demuxrules"
+	"astverif/extrarules"
 	"astverif/layout"
 	"astverif/ownership"
 )
@@ -26,6 +27,12 @@ func c02(c *Ctx) {
 		"user callbacks and the logger do not read from the demuxer's reader", "Go semantics of append/slicing/copy", "astikit v0.30.0 BytesIterator summary: Len() is the buffer length, Offset() the read position, Skip may move the offset beyond Len"}
 	demuxrules.New(c.P, r).C02()
 	r.Floor("C02", "obligations", len(r.Obls), 22)
+	// "exactly the units the stream carries", also on a second pass: every field the demux path writes is reset by Rewind
+	// (the reset rules of C20), and the packet buffer is dropped by Rewind only (P8 of C03: dropping it after an error makes
+	// the next call re-detect the packet size, which replays or skips packets)
+	ownership.ResetCompleteness(c.P, r, c20Reset)
+	extrarules.WhoMayStoreField(c.P, r, "P8", "Demuxer.packetBuffer/dropped-by", "Demuxer", "packetBuffer", []string{"(*Demuxer).Rewind"}, 1, extrarules.IsNilConst, "nil stores",
+		"re-detecting the packet size after input was consumed rewinds a seekable reader to offset 0 (the stream is replayed over the live pool) or swallows the next two packets of a plain reader")
 	// a delivered unit stays what it was: nothing in it aliases a buffer that later calls reuse (rule S3 of C16)
 	r.Floor("S3", "borrowed/owned byte-slice source sites", ownership.BorrowTaint(c.P, r), 10)
 	// the payload of a packet starts after the adaptation field, whatever its length (including the one-byte field):
